@@ -698,18 +698,19 @@ Proof.
 Qed.
 
 (* unpacking two archives with the same entry names gives states that differ in the tree only *)
-Lemma unpack_same_names u : forall fs fs' stA stB sA sB,
+Lemma unpack_same_names u work : forall fs fs' stA stB sA sB,
   map fst fs = map fst fs' ->
   stB = swapfu stA (s_fs stB) (s_updates stA) ->
-  unpack u fs stA = (sA, true) -> unpack u fs' stB = (sB, true) ->
+  unpack u work fs stA = (sA, true) -> unpack u work fs' stB = (sB, true) ->
   sB = swapfu sA (s_fs sB) (s_updates sA).
 Proof.
   induction fs as [|[n d] r IH]; intros fs' stA stB sA sB Hn Hrel HA HB.
   - destruct fs' as [|[n' d'] r']; [|discriminate]. simpl in *. inversion HA; inversion HB; subst. exact Hrel.
   - destruct fs' as [|[n' d'] r']; [discriminate|]. simpl in Hn. inversion Hn as [[Hn1 Hn2]]. subst n'.
     cbn [unpack] in HA, HB.
-    assert (mkabs stB (expand [] n) = mkabs stA (expand [] n)) as Hp by (rewrite Hrel; reflexivity).
-    rewrite Hp in HB. set (p := mkabs stA (expand [] n)) in *.
+    assert (mkabs stB (expand (s_env stB) n) = mkabs stA (expand (s_env stA) n)) as Hp by (rewrite Hrel; reflexivity).
+    rewrite Hp in HB. set (p := mkabs stA (expand (s_env stA) n)) in *.
+    destruct (beneath work p); [|inversion HA]. cbn [negb] in HA, HB.
     assert (s_files stB = s_files stA) as Hfl by (rewrite Hrel; reflexivity). rewrite Hfl in HB.
     destruct (mkdir_all (s_fs (set_files stA (assoc_set (s_files stA) p n))) (dir p) 511) as [t1A [|]]; [|inversion HA].
     destruct (mkdir_all (s_fs (set_files stB (assoc_set (s_files stA) p n))) (dir p) 511) as [t1B [|]]; [|inversion HB].
@@ -727,9 +728,9 @@ Proof.
   intros Hn H1 H2. unfold setup in *. change (c_unique (cfg_update cfg b)) with (c_unique cfg) in H2.
   destruct (mkdir_all [] _ 511) as [t [|]]; [|inversion H1].
   assert (s_updates st1 = []) as Hu.
-  { pose proof (upd_unpack (c_unique cfg) (files a) (empty_state env work t)) as H. rewrite H1 in H. exact H. }
+  { pose proof (upd_unpack (c_unique cfg) work (files a) (empty_state env work t)) as H. rewrite H1 in H. exact H. }
   split; [|exact Hu].
-  pose proof (unpack_same_names (c_unique cfg) (files a) (files a') (empty_state env work t) (empty_state env work t) st1 st2 Hn eq_refl H1 H2) as H.
+  pose proof (unpack_same_names (c_unique cfg) work (files a) (files a') (empty_state env work t) (empty_state env work t) st1 st2 Hn eq_refl H1 H2) as H.
   rewrite Hu in H. exact H.
 Qed.
 
